@@ -55,7 +55,8 @@ DocBounds ==
     prophoto |-> << Unit, Unit, Unit >>, linprophoto |-> << Unit, Unit, Unit >>, hsv_prophoto |-> << Free, Unit, Unit >>,
     xyzdci   |-> << <<Q(0, 1), Q(89459, 100000)>>, Unit, <<Q(0, 1), Q(95442, 100000)>> >>,
     labdci   |-> << <<Q(0, 1), Q(100, 1)>>, <<Q(-128, 1), Q(127, 1)>>, <<Q(-128, 1), Q(127, 1)>> >>,
-    dcip3 |-> << Unit, Unit, Unit >>, lindcip3 |-> << Unit, Unit, Unit >> ]
+    dcip3 |-> << Unit, Unit, Unit >>, lindcip3 |-> << Unit, Unit, Unit >>,
+    dcip3plus |-> << Unit, Unit, Unit >>, lindcip3plus |-> << Unit, Unit, Unit >> ]
 
 NodeNames == DOMAIN DocBounds
 NComp(node) == Len(DocBounds[node])
